@@ -27,7 +27,7 @@ BANDS = [5, 20, 40, 100]
 # independent window
 # ------------------------------------------------------------------------------------------------
 
-PROP_MODULES = ['C07', 'C07Gen', 'C07GenBand']
+PROP_MODULES = ['C07', 'C07Gen', 'C07GenBand', 'C07SmoothFreqs', 'C07GenSmoothFreqs']
 
 def ko_weight(band, f, fc):
     x = band * math.log10(f / fc)
@@ -805,6 +805,8 @@ _run_main2 = run
 def run(ctx):
     _run_main2(ctx)
     extras2(ctx)
+    import _freq2
+    _freq2.corr_freq2_c07(ctx)     # get_sig_freq_range, smoothing-frequency setters, object-level smoothing: Gen/SmoothFreqs vs impl
     ctx.flush()
 
 
